@@ -838,3 +838,135 @@ def typearg_cases(jobs):
             del linecache.cache[k]
         out.append({"id": job["id"], "props": ["C14"], "world": w, "steps": steps})
     return out
+
+
+# ---------------------------------------------------------------------------
+# C15: equivalent spellings
+# ---------------------------------------------------------------------------
+def spell_cases(jobs):
+    """job = {id, s1, s2}: for every surrounding method set build one function
+    with the target annotation spelled s1 and one with s2; same arguments."""
+    import linecache
+    import typing
+
+    from ovld import Ovld
+
+    from .observe import classify
+
+    out = []
+    for job in jobs:
+        A = type("A", (), {"__module__": "vfworld"})
+        B = type("B", (), {"__module__": "vfworld"})
+        Asub = type("Asub", (A,), {"__module__": "vfworld"})
+        C = type("C", (), {"__module__": "vfworld"})
+        base = {"A": A, "B": B, "C": C, "Asub": Asub, "int": int, "str": str, "typing": typing,
+                "Union": typing.Union, "Optional": typing.Optional, "Annotated": typing.Annotated,
+                "List": typing.List, "Literal": typing.Literal, "Any": typing.Any}
+
+        def expr(t):
+            s = t["s"]
+            if s == "cls":
+                return t["n"]
+            if s == "none":
+                return "None"
+            if s == "any":
+                return "Any"
+            if s == "object":
+                return "object"
+            if s == "Union":
+                return "Union[" + ", ".join(expr(a) for a in t["args"]) + "]"
+            if s == "Pipe":
+                return "(" + " | ".join(expr(a) for a in t["args"]) + ")"
+            if s == "Tuple":
+                return "(" + ", ".join(expr(a) for a in t["args"]) + ",)"
+            if s == "Optional":
+                return f"Optional[{expr(t['arg'])}]"
+            if s == "Annotated":
+                return f"Annotated[{expr(t['arg'])}, 'meta']"
+            if s == "Str":
+                return repr(expr(t["arg"]))
+            if s == "List":
+                return f"List[{expr(t['arg'])}]"
+            if s == "list":
+                return f"list[{expr(t['arg'])}]"
+            if s == "Literal":
+                return "Literal[" + ", ".join(repr(v) for v in t["vals"]) + "]"
+            raise ValueError(s)
+
+        def param(t):
+            return "x" if t["s"] == "missing" else f"x: {expr(t)}"
+
+        argvals = [A(), B(), Asub(), C(), None, 1, 2, 3, "s", [A()], [1], []]
+
+        def build(ctx, sa, sb):
+            ns = dict(base)
+            src = []
+            order = []
+            if ctx == "alone":
+                src.append(f"def mt({param(sa)}):\n    return 'mt'\n")
+                order = [("mt", 0)]
+            elif ctx == "fallback":
+                src.append(f"def mo(x: object):\n    return 'mo'\n")
+                src.append(f"def mt({param(sa)}):\n    return 'mt'\n")
+                order = [("mo", 0), ("mt", 0)]
+            elif ctx == "fallback_first":
+                src.append(f"def mt({param(sa)}):\n    return 'mt'\n")
+                src.append(f"def mo(x: object):\n    return 'mo'\n")
+                order = [("mt", 0), ("mo", 0)]
+            elif ctx == "competitors":
+                src.append(f"def mo(x: object):\n    return 'mo'\n")
+                src.append(f"def ms(x: Asub):\n    return 'ms'\n")
+                src.append(f"def mt({param(sa)}):\n    return 'mt'\n")
+                src.append(f"def mi(x: int):\n    return 'mi'\n")
+                order = [("mo", 0), ("ms", 0), ("mt", 0), ("mi", 0)]
+            elif ctx == "sibling":
+                # an identical signature registered twice: the later one replaces the first
+                src.append(f"def mo(x: object):\n    return 'mo'\n")
+                src.append(f"def m1({param(sa)}):\n    return 'm1'\n")
+                src.append(f"def m2({param(sb)}):\n    return 'm2'\n")
+                order = [("mo", 0), ("m1", 0), ("m2", 0)]
+            elif ctx == "sibling_prio":
+                src.append(f"def m1({param(sa)}):\n    return 'm1'\n")
+                src.append(f"def mp(x: object):\n    return 'mp'\n")
+                src.append(f"def m2({param(sb)}):\n    return 'm2'\n")
+                order = [("m1", 0), ("mp", -1), ("m2", 0)]
+            code = "\n".join(src)
+            fname = f"<vf:sp{id(ns)}>"
+            linecache.cache[fname] = (len(code), None, code.splitlines(True), fname)
+            exec(compile(code, fname, "exec"), ns, ns)
+            ov = Ovld()
+            for name, pr in order:
+                ov.register(ns[name], priority=pr)
+            return ov
+
+        def observe(ov):
+            res = []
+            for v in argvals:
+                try:
+                    res.append("run:" + str(ov(v)))
+                except BaseException as e:  # noqa
+                    res.append(classify(e))
+                    e.__traceback__ = None
+            return res
+
+        ctxs = []
+        err = None
+        for ctx in ("alone", "fallback", "fallback_first", "competitors", "sibling", "sibling_prio"):
+            try:
+                if ctx.startswith("sibling"):
+                    o1 = observe(build(ctx, job["s1"], job["s1"]))
+                    o2 = observe(build(ctx, job["s1"], job["s2"]))
+                else:
+                    o1 = observe(build(ctx, job["s1"], None))
+                    o2 = observe(build(ctx, job["s2"], None))
+            except Exception as e:
+                err = f"{ctx}: {type(e).__name__}: {e}"
+                break
+            ctxs.append({"name": ctx, "obs1": o1, "obs2": o2})
+        for k in [k for k in linecache.cache if k.startswith("<ovld:") or k.startswith("<vf:")]:
+            del linecache.cache[k]
+        if err:
+            out.append({"id": job["id"], "skip": err, "s1": job["s1"], "s2": job["s2"]})
+        else:
+            out.append({"id": job["id"], "s1": job["s1"], "s2": job["s2"], "ctxs": ctxs})
+    return out
